@@ -3,6 +3,8 @@ package spine
 import (
 	"fmt"
 
+	"github.com/enbility/ship-go/logging"
+
 	"github.com/enbility/spine-go/api"
 	"github.com/enbility/spine-go/model"
 )
@@ -300,7 +302,9 @@ func CreateFunctionData[F any](featureType model.FeatureTypeType) []F {
 	}
 
 	if len(result) == 0 {
-		panic(fmt.Errorf("unknown featureType '%s'", featureType))
+		// remote devices may announce features of a type without any (known) function,
+		// those features simply have no function data
+		logging.Log().Errorf("no functions known for featureType '%s'", featureType)
 	}
 
 	return result
